@@ -92,7 +92,7 @@ Terms(r) == [dyn_loss |-> Dyn(r), initial_condition |-> IC(r), norm_loss |-> Nor
 Total(r) == LET t == Terms(r) IN QSum(<<t.dyn_loss, t.initial_condition, t.norm_loss, t.boundary_loss, t.observations>>)
 
 (* ---------------- systems (C13) ----------------
-   r.nets[u]  = [name, V (one polynomial, one output), ic, bnd, obsd]   the unknowns, in key order
+   r.nets[u]  = [name, V (one polynomial: the output the equations use) [, V2: a second, only observed, output], ic, bnd, obsd]   the unknowns, in key order
    r.eqs[e]   = [name, R (polynomial over (inputs, u_1..u_n, th)), w]   the equations, with their weight
    r.wu[u]    = [ic, norm, bnd, obs] weights of unknown u
    The equation e is called with (t, x, all networks, all parameters); every other term is the sum over unknowns of
@@ -103,7 +103,8 @@ SysDyn(r) == QSum([e \in DOMAIN r.eqs |->
                  QMul(QI(r.eqs[e].w), QMean([i \in DOMAIN r.inside |->
                      LET v == SysRes(r, e, r.inside[i], ParamsRow(r.th, r.ptab, i)) IN QI(v * v)]))])
 One == <<1>>
-SubRec(r, u) == [lkind |-> r.lkind, dim |-> r.dim, V |-> <<r.nets[u].V>>, ot |-> "none", sol |-> <<1, 1>>, th |-> r.th, ptab |-> r.ptab,
+NetOutputs(n) == IF "V2" \in DOMAIN n THEN <<n.V, n.V2>> ELSE <<n.V>>     \* an optional second output (only observed, never used by the equations)
+SubRec(r, u) == [lkind |-> r.lkind, dim |-> r.dim, V |-> NetOutputs(r.nets[u]), ot |-> "none", sol |-> <<1, Len(NetOutputs(r.nets[u]))>>, th |-> r.th, ptab |-> r.ptab,
                  R |-> <<>>, het |-> [k \in DOMAIN r.th |-> <<>>], w |-> [dyn |-> One, ic |-> One, norm |-> One, bnd |-> One, obs |-> One],
                  inside |-> r.inside, border |-> r.border, ic |-> r.nets[u].ic, norm |-> [on |-> FALSE],
                  bnd |-> r.nets[u].bnd, obsd |-> r.nets[u].obsd]
